@@ -24,6 +24,7 @@ func checkC10(w *World, r *Report) {
 	c10ZeroDisables(w, r, ci)
 	c10IssuedTokens(w, r, ci)
 	c10HTTPCache(w, r, ci)
+	c10HTTPCacheAge(w, r, ci)
 	c10NoWriteBack(w, r, ci)
 	c10OverridePresence(w, r)
 	// the finalizer caches a token for the ttl it hands to the signer: the signer must make the token
@@ -850,6 +851,87 @@ func c10HTTPCache(w *World, r *Report, ci *types.Named) {
 			}
 		}
 		r.Ob(ri, key+"|no-freshness-needs-default", c.Pos(), ok3 && n > 0, "a response without freshness information may be stored only if DefaultCacheTTL != 0")
+	}
+}
+
+// ---- C10.9: the age of a response counts against its freshness lifetime ---------------------------------
+//
+// RFC 7234 4.2: a response is fresh while freshness_lifetime > current_age, and current_age (4.2.3) is
+// built from the Age header and from now - Date. The lifetime under which the HTTP cache stores a
+// response therefore has to depend on both headers of the response; a TTL computed from
+// Cache-Control / Expires alone serves a response that came through another cache beyond its lifetime.
+// Decided as a data dependence of the TTL argument of the store, looking into the results of module
+// helpers (depth 3).
+func c10HTTPCacheAge(w *World, r *Report, ci *types.Named) {
+	ri := r.Rule("C10.9", 2, "the TTL under which the HTTP cache stores a response depends on the age of the response (its Age and Date headers)")
+	headerRead := func(name string) func(ssa.Value) bool {
+		return func(x ssa.Value) bool {
+			// resp.Header["Age"]
+			if lk, ok := x.(*ssa.Lookup); ok {
+				if nm, isN := lk.X.Type().(*types.Named); isN && nm.Obj().Name() == "Header" && nm.Obj().Pkg() != nil && nm.Obj().Pkg().Path() == "net/http" {
+					s, isC := constString(lk.Index)
+					return isC && strings.EqualFold(s, name)
+				}
+				return false
+			}
+			c, ok := x.(*ssa.Call)
+			if !ok || len(c.Call.Args) == 0 {
+				return false
+			}
+			n := callName(c.Common())
+			if n != "net/http.Header.Get" && n != "net/http.Header.Values" {
+				return false
+			}
+			s, ok := constString(c.Call.Args[len(c.Call.Args)-1])
+			return ok && strings.EqualFold(s, name)
+		}
+	}
+	var deep func(v ssa.Value, pred func(ssa.Value) bool, depth int) bool
+	deep = func(v ssa.Value, pred func(ssa.Value) bool, depth int) bool {
+		found := false
+		dependsOn(w, v, func(x ssa.Value) bool {
+			if found {
+				return true
+			}
+			if pred(x) {
+				found = true
+				return true
+			}
+			var call *ssa.Call
+			if c, _ := resultOfCall(x); c != nil {
+				call = c
+			} else if c, ok := x.(*ssa.Call); ok {
+				call = c
+			}
+			if call != nil && depth < 3 {
+				if callee := call.Common().StaticCallee(); callee != nil && callee.Blocks != nil && w.inModule(callee) {
+					for _, ret := range returnsOf(callee) {
+						for _, res := range ret.Results {
+							if deep(res, pred, depth+1) {
+								found = true
+								return true
+							}
+						}
+					}
+				}
+			}
+			return false
+		})
+		return found
+	}
+	for _, c := range cacheCalls(w, ci, "Set") {
+		fn := c.Parent()
+		if fnPkgPath(fn) != modPath+"/internal/httpcache" {
+			continue
+		}
+		args := c.Common().Args
+		if len(args) == 0 {
+			continue
+		}
+		ttl := args[len(args)-1]
+		key := w.FnName(fn)
+		r.Ob(ri, key+"|ttl-depends-on-age-header", c.Pos(), deep(ttl, headerRead("Age"), 0), "the TTL of the stored response does not depend on its Age header: a response served by an intermediate cache is reused for its full max-age, beyond its freshness lifetime")
+		r.Ob(ri, key+"|ttl-depends-on-date-header", c.Pos(), deep(ttl, headerRead("Date"), 0), "the TTL of the stored response does not depend on its Date header (apparent age): a response generated long ago is reused for its full max-age")
 	}
 }
 
